@@ -752,6 +752,9 @@ func (s *State) applyContract(fn *ssa.Function, fc *FuncContract, args []Value, 
 	if fc.Trusted {
 		s.eng.trustedUsed[callee] = true
 	}
+	if s.eng.contractsUsed != nil && !fc.Inline {
+		s.eng.contractsUsed[callee] = true
+	}
 	// preconditions
 	for i, c := range fc.Requires {
 		g := s.evalClause(c, args, nil)
